@@ -5,10 +5,12 @@
    crs constructors), tied to the C++ by tools/props/C08.py.
    "any S": every Scalar record (hence IEEE floats incl. NaN); "ring": every commutative
    ring; "ordered field": hypotheses listed in Section OrderedField; closed at Qc.
-   Dense semantics: mget A i j = sum of the stored entries (i,j) (duplicates add up). *)
+   Dense semantics: mget A i j = sum of the stored entries (i,j) (duplicates add up).
+   Section 6 (end of file): block values (non-commutative ring, BlockMatOpsProofs.v) and complex values. *)
 From Coq Require Import Sorting.Sorted Sorting.Permutation QArith_base Qcanon.
 Local Close Scope Qc_scope.
 Local Close Scope Q_scope.
+From Amgcl Require Import NcRing BlockInst NcRingBlock BlockMatOpsProofs BlockGershProofs ComplexInst.   (* before MatOps2: its [blk] must stay visible *)
 From Amgcl Require Import Scalar QcInst Vec Crs Kernels KernelsProofs MatOps MatOpsProofs MatOps2 MatOps2Proofs.
 Local Open Scope S_scope.
 
@@ -442,4 +444,185 @@ Example C08_nonvacuous :
   wf A = true /\ ncols A = nrows B /\
   qrows_of (spgemm_saad A B false) = [[(0, (15#1)%Q); (1, ((-5)#2)%Q)]; []] /\
   qrows_of (spgemm_rmerge A B) = [[(0, (15#1)%Q); (1, ((-5)#2)%Q)]; []].
+Proof. vm_compute. repeat split; reflexivity. Qed.
+
+(* ================================================================== *)
+(* 6. Block and complex value types.
+   "nc ring": every NON-commutative ring (ncring_theory, NcRing.v) -- in particular static_matrix<T,b,b> blocks
+   (BlockS T b).  The statements keep the operand order of the C++: (A B)_ij = sum_k a_ik * b_kj with the entry of
+   A on the LEFT, alpha * a_ij, a_ij * s; the transpose takes the adjoint of every value, and when the adjoint is an
+   anti-automorphism (blocks: conjugate transpose) transposition reverses products. *)
+Section NcRing.
+Variable S : Scalar.
+Hypothesis Hnc : ncring_theory S.
+
+Theorem C08_nc_product_saad_dense (A B : crs S) (sort : bool) i j :
+  wf A = true -> ncols A = nrows B -> i < nrows A ->
+  mget (spgemm_saad A B sort) i j = sumn (fun k => mget A i k * mget B k j) (ncols A).
+Proof. intros H _ Hi. exact (nc_spgemm_saad_dense Hnc A B sort i j H Hi). Qed.
+
+Theorem C08_nc_product_rmerge_dense (A B : crs S) i j :
+  wf A = true -> ncols A = nrows B -> i < nrows A ->
+  mget (spgemm_rmerge A B) i j = sumn (fun k => mget A i k * mget B k j) (ncols A).
+Proof. intros H _ Hi. exact (nc_spgemm_rmerge_dense Hnc A B i j H Hi). Qed.
+
+Theorem C08_nc_product_dense_all_thread_counts (nt : nat) (A B : crs S) (sort : bool) i j :
+  wf A = true -> ncols A = nrows B -> i < nrows A ->
+  mget (product nt A B sort) i j = sumn (fun k => mget A i k * mget B k j) (ncols A).
+Proof. intros H _ Hi. exact (nc_product_dense Hnc nt A B sort i j H Hi). Qed.
+
+Theorem C08_nc_product_algorithms_agree (A B : crs S) (sort : bool) i j :
+  mget (spgemm_rmerge A B) i j = mget (spgemm_saad A B sort) i j.
+Proof. exact (nc_rmerge_eq_saad_dense_all Hnc A B sort i j). Qed.
+
+Theorem C08_nc_row_add_dense (r : row S) c v j :
+  rget (row_add r c v) j = rget r j + (if Nat.eqb c j then v else s0).
+Proof. exact (nc_rget_row_add Hnc r c v j). Qed.
+
+Theorem C08_nc_sum_dense alpha (A : crs S) beta (B : crs S) (sort : bool) i j :
+  nrows A = nrows B -> i < nrows A ->
+  mget (msum alpha A beta B sort) i j = alpha * mget A i j + beta * mget B i j.
+Proof. exact (nc_msum_dense Hnc alpha A beta B sort i j). Qed.
+
+Theorem C08_nc_scale_dense (A : crs S) (s : S) i j : mget (mscale A s) i j = mget A i j * s.
+Proof. exact (nc_mscale_dense Hnc A s i j). Qed.
+
+Theorem C08_nc_sort_rows_dense (A : crs S) i j : mget (sort_rows A) i j = mget A i j.
+Proof. exact (nc_sort_rows_dense Hnc A i j). Qed.
+
+(* transpose: entry (j,i) = adjoint of entry (i,j), for an additive adjoint *)
+Theorem C08_nc_transpose_dense
+  (sadj_add : forall a b : S, sadj (a + b) = sadj a + sadj b) (sadj_0 : sadj (@s0 S) = s0)
+  (A : crs S) i j : j < ncols A ->
+  mget (transpose A) j i = sadj (mget A i j).
+Proof. exact (nc_transpose_dense Hnc sadj_add sadj_0 A i j). Qed.
+
+(* adjoint an anti-automorphism => transposition reverses products *)
+Theorem C08_nc_transpose_of_product
+  (sadj_add : forall a b : S, sadj (a + b) = sadj a + sadj b) (sadj_0 : sadj (@s0 S) = s0)
+  (sadj_mul : forall a b : S, sadj (a * b) = sadj b * sadj a)
+  (A B : crs S) (sort : bool) i j :
+  wf A = true -> i < nrows A -> j < ncols B ->
+  mget (transpose (spgemm_saad A B sort)) j i =
+  sumn (fun k => mget (transpose B) j k * mget (transpose A) k i) (ncols A).
+Proof. exact (nc_transpose_product Hnc sadj_add sadj_0 sadj_mul A B sort i j). Qed.
+
+Theorem C08_nc_diagonal_dense (r : row S) i :
+  (forall d, NoDup (map fst r) -> first_col r i = Some d -> rget r i = d) /\
+  (first_col r i = None -> rget r i = s0).
+Proof. exact (conj (fun d => nc_first_col_some_dense Hnc r i d) (nc_first_col_none_dense Hnc r i)). Qed.
+End NcRing.
+Print Assumptions C08_nc_product_saad_dense.
+Print Assumptions C08_nc_product_rmerge_dense.
+Print Assumptions C08_nc_product_dense_all_thread_counts.
+Print Assumptions C08_nc_product_algorithms_agree.
+Print Assumptions C08_nc_row_add_dense.
+Print Assumptions C08_nc_sum_dense.
+Print Assumptions C08_nc_scale_dense.
+Print Assumptions C08_nc_sort_rows_dense.
+Print Assumptions C08_nc_transpose_dense.
+Print Assumptions C08_nc_transpose_of_product.
+Print Assumptions C08_nc_diagonal_dense.
+
+(* static_matrix<T,b,b> with math::adjoint = conjugate transpose of the block: a non-commutative ring whose
+   adjoint is an additive, involutive ANTI-automorphism (T a commutative ring with an additive, multiplicative,
+   involutive adjoint: identity for real T, conjugation for complex T) *)
+Theorem C08_block_adjoint_antiautomorphism (S0 : Scalar) (b : nat) (Srt : Sring S0)
+  (sadj_add0 : forall x y : S0, sadj (x + y) = sadj x + sadj y)
+  (sadj_mul0 : forall x y : S0, sadj (x * y) = sadj x * sadj y)
+  (sadj_invol0 : forall x : S0, sadj (sadj x) = x) :
+  ncring_theory (BlockS S0 b) /\
+  (forall x y : BlockS S0 b, sadj (x + y) = sadj x + sadj y) /\
+  (forall x y : BlockS S0 b, sadj (x * y) = sadj y * sadj x) /\
+  (forall x : BlockS S0 b, sadj (sadj x) = x) /\
+  sadj (@s0 (BlockS S0 b)) = s0 /\
+  (forall (x : BlockS S0 b) i j, i < b -> j < b -> blk_get (sadj x : BlockS S0 b) i j = sadj (blk_get x j i)).
+Proof.
+  exact (conj (BlockS_ncring S0 b Srt) (conj (BlockS_adj_add S0 b sadj_add0)
+        (conj (BlockS_adj_mul S0 b Srt sadj_add0 sadj_mul0) (conj (BlockS_adj_invol S0 b sadj_invol0)
+        (conj (BlockS_adj_0 S0 b Srt sadj_add0) (BlockS_adj_get S0 b)))))).
+Qed.
+Print Assumptions C08_block_adjoint_antiautomorphism.
+
+(* closed at static_matrix<Q,b,b> for EVERY b: no hypotheses left *)
+Theorem C08_block_product_dense_all_thread_counts_Qc (b nt : nat) (A B : crs (BlockS QcS b)) (sort : bool) i j :
+  wf A = true -> ncols A = nrows B -> i < nrows A ->
+  mget (product nt A B sort) i j = sumn (fun k => mget A i k * mget B k j) (ncols A).
+Proof. exact (C08_nc_product_dense_all_thread_counts (BlockS QcS b) (BlockS_ncring QcS b QcS_ring) nt A B sort i j). Qed.
+Print Assumptions C08_block_product_dense_all_thread_counts_Qc.
+
+Theorem C08_block_transpose_dense_Qc (b : nat) (A : crs (BlockS QcS b)) i j : j < ncols A ->
+  mget (transpose A) j i = sadj (mget A i j).
+Proof.
+  exact (C08_nc_transpose_dense (BlockS QcS b) (BlockS_ncring QcS b QcS_ring)
+           (BlockS_adj_add QcS b (fun _ _ => eq_refl)) (BlockS_adj_0 QcS b QcS_ring (fun _ _ => eq_refl)) A i j).
+Qed.
+Print Assumptions C08_block_transpose_dense_Qc.
+
+Theorem C08_block_transpose_of_product_Qc (b : nat) (A B : crs (BlockS QcS b)) (sort : bool) i j :
+  wf A = true -> i < nrows A -> j < ncols B ->
+  mget (transpose (spgemm_saad A B sort)) j i =
+  sumn (fun k => mget (transpose B) j k * mget (transpose A) k i) (ncols A).
+Proof.
+  exact (C08_nc_transpose_of_product (BlockS QcS b) (BlockS_ncring QcS b QcS_ring)
+           (BlockS_adj_add QcS b (fun _ _ => eq_refl)) (BlockS_adj_0 QcS b QcS_ring (fun _ _ => eq_refl))
+           (BlockS_adj_mul QcS b QcS_ring (fun _ _ => eq_refl) (fun _ _ => eq_refl)) A B sort i j).
+Qed.
+Print Assumptions C08_block_transpose_of_product_Qc.
+
+Theorem C08_block_sum_dense_Qc (b : nat) alpha (A : crs (BlockS QcS b)) beta (B : crs (BlockS QcS b)) (sort : bool) i j :
+  nrows A = nrows B -> i < nrows A ->
+  mget (msum alpha A beta B sort) i j = alpha * mget A i j + beta * mget B i j.
+Proof. exact (C08_nc_sum_dense (BlockS QcS b) (BlockS_ncring QcS b QcS_ring) alpha A beta B sort i j). Qed.
+Print Assumptions C08_block_sum_dense_Qc.
+
+(* complex values: ComplexS T is a COMMUTATIVE ring whose adjoint (conjugation) is additive, so the ring theorems
+   of section 2 apply as they stand; closed at the Gaussian rationals *)
+Theorem C08_complex_transpose_dense_Qc (A : crs CQcS) i j : j < ncols A ->
+  mget (transpose A) j i = sadj (mget A i j).
+Proof. exact (C08_transpose_dense CQcS CQcS_ring (conj_add QcS QcS_ring) (conj_0 QcS QcS_ring) A i j). Qed.
+Print Assumptions C08_complex_transpose_dense_Qc.
+
+Theorem C08_complex_product_dense_all_thread_counts_Qc (nt : nat) (A B : crs CQcS) (sort : bool) i j :
+  wf A = true -> ncols A = nrows B -> i < nrows A ->
+  mget (product nt A B sort) i j = sumn (fun k => mget A i k * mget B k j) (ncols A).
+Proof. exact (C08_product_dense_all_thread_counts CQcS CQcS_ring nt A B sort i j). Qed.
+Print Assumptions C08_complex_product_dense_all_thread_counts_Qc.
+
+Theorem C08_complex_sum_scale_dense_Qc alpha (A : crs CQcS) beta (B : crs CQcS) (sort : bool) (s : CQcS) i j :
+  nrows A = nrows B -> i < nrows A ->
+  mget (msum alpha A beta B sort) i j = alpha * mget A i j + beta * mget B i j /\
+  mget (mscale A s) i j = mget A i j * s.
+Proof.
+  intros H Hi. exact (conj (C08_sum_dense CQcS CQcS_ring alpha A beta B sort i j H Hi) (C08_scale_dense CQcS CQcS_ring A s i j)).
+Qed.
+Print Assumptions C08_complex_sum_scale_dense_Qc.
+
+(* spectral_radius (Gershgorin branch) at block values: math::norm of a block is a base scalar, so the estimate is
+   a base scalar (carried embedded as c*I by the model): it is computed by the same loop on base scalars
+   (BlockGershProofs.gersh_n: row sums of the Frobenius norms, times the norm of the inverted diagonal block when
+   scaled), and the unscaled estimate is max(0, max_i sum_j ||a_ij||_F) over the stored blocks -- the scalar
+   Gershgorin value of the matrix of norms -- for every chunking of the rows over the threads *)
+Theorem C08_block_gershgorin_is_base_scalar_Qc (b : nat) (scale : bool) (lens : list nat) (A : crs (BlockS QcS b)) :
+  0 < b ->
+  spectral_radius_gersh scale lens A = blk_embed QcS b (gersh_n QcS (BlockS QcS b) (bnorm b) scale lens A).
+Proof. intro Hb. exact (block_gersh_is_scalar_Qc b Hb scale lens A). Qed.
+Print Assumptions C08_block_gershgorin_is_base_scalar_Qc.
+
+Theorem C08_block_gershgorin_value_Qc (b : nat) (lens : list nat) (A : crs (BlockS QcS b)) :
+  0 < b -> nrows A <= fold_right Nat.add 0 lens ->
+  spectral_radius_gersh false lens A =
+  blk_embed QcS b (gersh_spec false (norm_matrix QcS (BlockS QcS b) (bnorm b) A)).
+Proof. intro Hb. exact (block_gersh_value_Qc b Hb lens A). Qed.
+Print Assumptions C08_block_gershgorin_value_Qc.
+
+(* non-vacuity: with non-commuting 2 x 2 blocks the product with the operands of every value product swapped
+   (what `vb * va` in spgemm_saad would compute) is a DIFFERENT matrix, and the adjoint of a block is its transpose *)
+Example C08_block_operand_order_matters :
+  let a : BlockS QcS 2 := blk_of_list QcS 2 [qc 0 1; qc 1 1; qc 0 1; qc 0 1] in
+  let c : BlockS QcS 2 := blk_of_list QcS 2 [qc 0 1; qc 0 1; qc 1 1; qc 0 1] in
+  let A : crs (BlockS QcS 2) := mkCrs 1 [[(0%nat, a)]] in
+  let B : crs (BlockS QcS 2) := mkCrs 1 [[(0%nat, c)]] in
+  seqb (mget (spgemm_saad A B false) 0 0) (a * c) = true /\ seqb (a * c) (c * a) = false /\
+  seqb (mget (transpose A) 0 0) c = true.
 Proof. vm_compute. repeat split; reflexivity. Qed.
